@@ -8,6 +8,7 @@ pub mod entropy;
 pub mod framed;
 pub mod rng;
 pub mod rt;
+pub mod simdisk;
 pub mod simio;
 
 use std::{
